@@ -20,6 +20,7 @@ Definition dispatch (prop : string) (c : sexp) : sexp :=
   else if String.eqb prop "C06" then G14.run_sign_steps c
   else if String.eqb prop "C04" then G04.run c
   else if String.eqb prop "C09" then G03.run_reparse c
+  else if String.eqb prop "C09yaml" then G03.run_reparse_yaml c
   else if String.eqb prop "C02" then G14.run_roundtrip c
   else if String.eqb prop "C16" then G16.run c
   else if String.eqb prop "C16ref" then G16.run_ref c
